@@ -4,6 +4,8 @@ import CoercionModel.Model.SkeletonsCosmos
 import CoercionModel.Generated.F11
 import CoercionModel.Model.SkeletonsSqlite
 import CoercionModel.Generated.F13
+import CoercionModel.Model.SkeletonsGlue
+import CoercionModel.Generated.F15
 set_option linter.unusedSimpArgs false
 /-
   C13 — Storage round trip: Read returns exactly what was last written.
@@ -131,5 +133,9 @@ theorem facts_cosmos_skeleton : Generated.F11.roundtrip = SkeletonsCosmos.roundt
     read against the model (regenerated from /repo on every run, Model/SkeletonsSqlite). A static tie on top of the
     dynamic differential: it also sees changes no generated input exercises. -/
 theorem facts_sqlite_skeleton : Generated.F13.roundtrip = SkeletonsSqlite.roundtrip := by rfl
+
+/-- the glue code this property's campaigns rest on (group `storeGlue` of Model/SkeletonsGlue: code no model mirrors) still has
+    the shape it was read with (regenerated from /repo on every run) -/
+theorem facts_glue_skeleton : Generated.F15.storeGlue = SkeletonsGlue.storeGlue := by rfl
 
 end Coercion.C13
